@@ -32,6 +32,14 @@ FaultKinds == SqlFaults \cup {"PythonError"}
 (* K = number of statements of the fault-free call (known from its log).   *)
 DInit == [conn |-> "none", k |-> 0, fault |-> "", commits |-> 0, rollbacks |-> 0, bad |-> ""]
 
+\* "The file changes only at commit, and a process that dies before leaves the old content" holds because
+\* the rollback journal is a FILE next to the database: pages that overflow SQLite's page cache are written
+\* into the database before the commit and are undone from that journal by the next reader.  A pragma that
+\* takes the journal out of the file system removes this guarantee for every transaction larger than the
+\* cache.  (journal_mode DELETE / TRUNCATE / PERSIST / WAL keep it; synchronous only matters for power loss,
+\* which the property does not quantify over; every other pragma is harmless here.)
+WeakensDurability(e) == e.sql = "pragma" /\ e.pname = "journal_mode" /\ e.pval \in {"memory", "off"}
+
 IsHandled(f) == f \in Handled \/ f \in {"real:IntegrityError", "real:InterfaceError"}
 
 \* "" when event e is legal in discipline state s, otherwise the rule it breaks
@@ -46,6 +54,7 @@ DReject(s, e, K) ==
          ELSE IF s.fault # "" THEN "a statement is issued after a failed one (the error was swallowed)"
          ELSE IF s.commits > 0 THEN "a statement is issued after the commit (commit in the middle of the call)"
          ELSE IF e.k = 1 /\ e.sql # "pragma" THEN "the first statement is not PRAGMA foreign_keys"
+         ELSE IF WeakensDurability(e) THEN "durability_assumption: the rollback journal is taken out of the file system (journal_mode memory/off)"
          ELSE ""
     [] e.e = "pyerr" -> ""
     [] e.e = "commit" ->
@@ -99,7 +108,8 @@ DFinal(s, outcome) ==
 (* touched only after a successful commit).  Mode "implemented": what the  *)
 (* code does.                                                              *)
 (***************************************************************************)
-CONSTANTS Shapes, Mode
+CONSTANTS Shapes, Mode,
+          Journal      \* "disk" (SQLite's default rollback journal) or "memory" (journal_mode MEMORY / OFF)
 
 VARIABLES sh,        \* the shape of the call being executed
           pc,        \* next statement
@@ -109,16 +119,22 @@ VARIABLES sh,        \* the shape of the call being executed
           reg,       \* the session registry holds the item this call (auto-)inserts
           phase,     \* run / raise_h (handled error) / raise_u (unhandled) / committing / done
           status,    \* running / ok / refused / error / crashed
-          log        \* what happened, for reporting: <<k, kind>> of the injected fault or crash
-vars == <<sh, pc, conn, work, durable, reg, phase, status, log>>
+          log,       \* what happened, for reporting: <<k, kind>> of the injected fault or crash
+          spill      \* effects of the open transaction whose pages overflowed the page cache INTO THE FILE
+vars == <<sh, pc, conn, work, durable, reg, phase, status, log, spill>>
 
 Post(s) == s.writes
 
 MInit == /\ sh \in Shapes /\ pc = 1 /\ conn = "none" /\ work = {} /\ durable = {} /\ reg = sh.regInit
-         /\ phase = "run" /\ status = "running" /\ log = <<0, "none">>
+         /\ phase = "run" /\ status = "running" /\ log = <<0, "none">> /\ spill = {}
+
+\* at any moment of a large transaction the page cache may overflow: what was written so far goes into
+\* the database file (the original pages having been saved in the journal first)
+Spill == /\ phase = "run" /\ conn = "open" /\ spill # work /\ spill' = work
+         /\ UNCHANGED <<sh, pc, conn, work, durable, reg, phase, status, log>>
 
 Open == /\ phase = "run" /\ conn = "none" /\ conn' = "open"
-        /\ UNCHANGED <<sh, pc, work, durable, reg, phase, status, log>>
+        /\ UNCHANGED <<sh, pc, work, durable, reg, phase, status, log, spill>>
 
 RegAfter(k) == IF Mode = "implemented" /\ k \in sh.regAt THEN sh.regSet ELSE reg
 
@@ -127,7 +143,7 @@ Stmt == /\ phase = "run" /\ conn = "open" /\ pc <= sh.K
         /\ work' = IF pc \in sh.writes THEN work \cup {pc} ELSE work
         /\ reg' = RegAfter(pc)
         /\ pc' = pc + 1
-        /\ UNCHANGED <<sh, conn, durable, phase, status, log>>
+        /\ UNCHANGED <<sh, conn, durable, phase, status, log, spill>>
 
 \* statement pc is rejected by the database / the storage layer with `kind`
 Fault(kind) ==
@@ -137,43 +153,46 @@ Fault(kind) ==
            \* except sqlite3.IntegrityError: pass  - the rest of the guarded block is skipped, the body goes on
            THEN /\ pc' = 1 + CHOOSE m \in sh.swallow : \A n \in sh.swallow : n <= m
                 /\ reg' = reg
-                /\ UNCHANGED <<sh, conn, work, durable, phase, status>>
+                /\ UNCHANGED <<sh, conn, work, durable, phase, status, spill>>
            ELSE /\ phase' = IF kind \in Handled THEN "raise_h" ELSE "raise_u"
-                /\ UNCHANGED <<sh, pc, conn, work, durable, reg, status>>
+                /\ UNCHANGED <<sh, pc, conn, work, durable, reg, status, spill>>
 
 \* a Python exception between statement pc-1 and statement pc
 PyFault == /\ phase = "run" /\ conn = "open" /\ pc >= 2 /\ pc <= sh.K + 1 /\ log[2] = "none"
            /\ log' = <<pc - 1, "PythonError">> /\ phase' = "raise_u"
-           /\ UNCHANGED <<sh, pc, conn, work, durable, reg, status>>
+           /\ UNCHANGED <<sh, pc, conn, work, durable, reg, status, spill>>
 
-Rollback == /\ phase = "raise_h" /\ conn = "open" /\ work' = {} /\ phase' = "raise_u"
+\* while the process lives the journal - on disk or in memory - undoes spilled pages
+Rollback == /\ phase = "raise_h" /\ conn = "open" /\ work' = {} /\ spill' = {} /\ phase' = "raise_u"
             /\ status' = "refused"
             /\ UNCHANGED <<sh, pc, conn, durable, reg, log>>
 
 \* finally: close; pending changes of an uncommitted transaction are discarded
-CloseAfterError == /\ phase = "raise_u" /\ conn = "open" /\ conn' = "closed" /\ work' = {}
+CloseAfterError == /\ phase = "raise_u" /\ conn = "open" /\ conn' = "closed" /\ work' = {} /\ spill' = {}
                    /\ status' = IF status = "refused" THEN "refused" ELSE "error"
                    /\ phase' = "done"
                    /\ UNCHANGED <<sh, pc, durable, reg, log>>
 
 CommitBegin == /\ phase = "run" /\ conn = "open" /\ pc = sh.K + 1 /\ phase' = "committing"
-               /\ UNCHANGED <<sh, pc, conn, work, durable, reg, status, log>>
+               /\ UNCHANGED <<sh, pc, conn, work, durable, reg, status, log, spill>>
 \* the journal is in place: from here on the file holds the old or the new content, nothing else
-CommitEnd == /\ phase = "committing" /\ durable' = durable \cup work /\ work' = {}
+CommitEnd == /\ phase = "committing" /\ durable' = durable \cup work /\ work' = {} /\ spill' = {}
              /\ conn' = "closed" /\ phase' = "done" /\ status' = "ok"
              /\ reg' = IF Mode = "required" /\ sh.regAt # {} THEN sh.regSet ELSE reg
              /\ UNCHANGED <<sh, pc, log>>
 
-\* the process dies: nothing of an open transaction reaches the file (hot journal is rolled back by the
-\* next reader); inside the commit either all or nothing; the session registries die with the process
+\* the process dies: with the journal on disk nothing of an open transaction stays in the file (the hot
+\* journal is rolled back by the next reader); inside the commit either all or nothing; the session
+\* registries die with the process
 Crash == /\ status = "running" /\ phase \in {"run", "committing", "raise_h", "raise_u"} /\ log[2] = "none"
          /\ log' = <<pc, "crash">>
-         /\ \/ durable' = durable
+         /\ \/ Journal = "disk" /\ durable' = durable                 \* hot journal: the next reader undoes the spill
+            \/ Journal # "disk" /\ durable' = durable \cup spill     \* the journal died with the process
             \/ phase = "committing" /\ durable' = durable \cup work
-         /\ work' = {} /\ conn' = "closed" /\ reg' = FALSE /\ phase' = "done" /\ status' = "crashed"
+         /\ work' = {} /\ spill' = {} /\ conn' = "closed" /\ reg' = FALSE /\ phase' = "done" /\ status' = "crashed"
          /\ UNCHANGED <<sh, pc>>
 
-MNext == Open \/ Stmt \/ (\E kind \in SqlFaults : Fault(kind)) \/ PyFault \/ Rollback
+MNext == Open \/ Spill \/ Stmt \/ (\E kind \in SqlFaults : Fault(kind)) \/ PyFault \/ Rollback
          \/ CloseAfterError \/ CommitBegin \/ CommitEnd \/ Crash
 MSpec == MInit /\ [][MNext]_vars
 
@@ -201,6 +220,7 @@ NoCommitAfterFault == (status = "ok") => (log[2] = "none" \/ log[2] = "crash")
 
 \* classification of a finished behaviour, for listing what the implemented mode breaks
 Verdict == IF ~Done THEN "running"
+           ELSE IF ~Atomic /\ status = "crashed" THEN "not_atomic:spilled_pages_stay_after_process_death"
            ELSE IF ~Atomic THEN "not_atomic:partial_effect_committed"
            ELSE IF status = "ok" /\ log[2] \in FaultKinds THEN "success_after_failed_statement"
            ELSE IF ~Repeatable THEN "not_repeatable:registry_keeps_item_the_database_rolled_back"
